@@ -15,9 +15,33 @@ func pathsJob(j job) any {
 		docs = append(docs, d.(string))
 	}
 	var out []map[string]any
+	var trees []mjml.Component
 	for _, c := range j.list("calls") {
 		cc := job(c.(map[string]any))
-		h, err := renderPath(cc.str("path"), docs[int(cc.num("doc"))], nil)
+		var h string
+		var err error
+		switch cc.str("path") {
+		case "new": // NewFromAST now, RenderComponentString later ("tree")
+			var t mjml.Component
+			if ast, e := mjml.ParseMJML(docs[int(cc.num("doc"))]); e != nil {
+				err = e
+			} else {
+				t, err = mjml.NewFromAST(ast)
+			}
+			trees = append(trees, t)
+			ei := classify(err)
+			out = append(out, map[string]any{"sha": "built", "norm_sha": "built", "err": ei.Class + ":" + ei.Text, "len": 0})
+			continue
+		case "tree":
+			k := int(cc.num("tree"))
+			if k >= len(trees) || trees[k] == nil {
+				out = append(out, map[string]any{"sha": "no-tree", "norm_sha": "no-tree", "err": "none:", "len": 0})
+				continue
+			}
+			h, err = mjml.RenderComponentString(trees[k])
+		default:
+			h, err = renderPath(cc.str("path"), docs[int(cc.num("doc"))], nil)
+		}
 		u, _ := unifyIDs(h)
 		n := mjml.VerifNormalizeGroupColumnClassOrder(u)
 		ei := classify(err)
